@@ -44,6 +44,7 @@ def run(ctx):
     ctx.check(oki and raises, "C01.b", "extract_weights:index", "weights[array_mask] after refusing a shape mismatch",
               "extract_weights no longer filters the weights with the mask (or no longer refuses wrongly shaped weights)", ew.where)
     wiring.flatten_order(ctx, "C01.b", m, "flattening:C-order")
+    wiring.nan_gate(ctx, "C01.b", h1, "calculate_1d_bins", "h1:nan-gate")
     dn = [c for c in calls_in(h1.node) if call_is(c, "extract_1d_array")]
     ctx.check(len(dn) == 1 and U(kwarg(dn[0], "dropna")) == "dropna", "C01.b", "h1:dropna-forwarded", "dropna forwarded to the extractor",
               "h1 does not forward dropna to extract_1d_array", h1.where)
